@@ -33,6 +33,7 @@ def check(ctx):
     r18_1(ctx, m)
     r18_2(ctx, m)
     r18_3(ctx, m)
+    r18_4(ctx, m)
     ctx.not_decided.append("that the degree census recognises exactly the non-chain components (a graph-theoretic statement about biccs/dfs, see C15)")
 
 
@@ -291,3 +292,31 @@ def effect_of(s):
     if isinstance(s, ast.AugAssign) and not isinstance(s.target, ast.Name):
         return "store"
     return None
+
+
+def r18_4(ctx, m):
+    """The recognised shape conditions are present and look at the data they are about:
+    cycle with other than two scaffold ends; number of degree-1 / degree-2 scaffold elements; one contig name among the
+    scaffold nodes (the SN *value*, not the tag's type letter); ascending reference offsets."""
+    dec = m.dec
+    conds = []
+    for st in walk_stmts(dec.node.body):
+        if isinstance(st, ast.If) and any(r in m.fail_returns for r in walk_stmts(st.body)):
+            conds.append(st)
+        if isinstance(st, ast.Try) and any(r in m.fail_returns for h in st.handlers for r in walk_stmts(h.body)):
+            conds.append(st)
+    ctx.require_count("R18.4", len(conds), 5, dec.where(), "shape conditions that lead to the skip return")
+    sn = [c for c in conds if "'SN'" in norm(c)]
+    if not sn:
+        ctx.violated("R18.4", dec.where(), "no skip condition looks at the contig names (SN) of the scaffold nodes: components joined through a haplotype are not recognised", key_of(dec, "sn-condition-missing"))
+    for c in sn:
+        t = norm(c.test) if isinstance(c, ast.If) else norm(c)
+        subs = [s_ for s_ in ast.walk(c.test if isinstance(c, ast.If) else c) if isinstance(s_, ast.Subscript) and "tags['SN']" in norm(s_)]
+        outer = [s_ for s_ in subs if norm(s_).endswith("tags['SN'][0]")]
+        ok = not outer and "len(set(" in t and "!= 1" in t.replace("== 1", "!= 1") and ("!= 1" in t or "> 1" in t)
+        ctx.check(ok, "R18.4", dec.where(c), "the contig-name condition compares the SN tag values of the scaffold nodes (the whole tag or its value element), not the type letter, which is the same for every node", key_of(dec, f"sn-condition:{t[:120]}"), condition=t[:200])
+    deg = [c for c in conds if "degree" in norm(c)]
+    ctx.check(len(deg) >= 2, "R18.4", dec.where(), "the degree census (two ends of degree 1, all others of degree 2) leads to the skip return", key_of(dec, f"degree-conditions:{len(deg)}"))
+    asc = [c for c in conds if "coordinates[" in norm(c)]
+    ok_asc = any(isinstance(c, ast.If) and norm(c.test).replace(" ", "") in ("notcoordinates[i]<coordinates[i+1]", "coordinates[i]>=coordinates[i+1]") for c in asc)
+    ctx.check(ok_asc, "R18.4", dec.where(), "scaffold offsets that do not strictly ascend along the chain lead to the skip return", key_of(dec, "ascending-condition"))
